@@ -219,13 +219,16 @@ pub fn check(v: &View) -> Vec<Violation> {
                 Ev::TimerSubmit { aidx: x, inst, reg_inc, timer, n } if *x == aidx => {
                     let Some(i) = idx_of.get(&(*inst, *reg_inc)) else { continue };
                     if let Some(next) = starts.get(i + 1) {
-                        if next.exit.is_some_and(|e| r.st.seq > e) {
+                        // (the restart aborts the old timers between `stopped()` and the new
+                        // `started()`: a submission once the new `started()` has begun is stale,
+                        // not only once it has returned)
+                        if r.st.seq > next.enter {
                             let kind = kinds.get(&(*inst, *reg_inc, *timer)).copied();
                             out.push(violation(
                                 P,
                                 "stale-timer-fired-after-restart",
                                 &format!("{strategy}:{}", kind.map(|k| format!("{k:?}")).unwrap_or_default()),
-                                format!("actor {aidx}: timer {timer} registered by incarnation {} fired (submission #{n}) at seq {} / t={} after incarnation {} had started (seq {:?})", i + 1, r.st.seq, r.st.vtime, i + 2, next.exit),
+                                format!("actor {aidx}: timer {timer} registered by incarnation {} fired (submission #{n}) at seq {} / t={} after the started() of incarnation {} had begun (seq {})", i + 1, r.st.seq, r.st.vtime, i + 2, next.enter),
                             ));
                         }
                     }
